@@ -39,7 +39,7 @@ class ConstPool:
       statistically significant approximation, error << 1/q^2) are snapped to that rational;
     * every other ("opaque": irrational table entries, folded products of those) constant joins
       the ratio class of an already registered opaque constant m if c/m is a simple rational
-      r (denominator <= 1000, within 1e-11 relative; r = 1 is plain clustering) and gets the exact
+      r (numerator, denominator <= 128, within 1e-11 relative; r = 1 is plain clustering) and gets the exact
       value r * value(m); otherwise it founds a new class with its exact binary value.
       This keeps CasADi's constant folding ((n*T)*tau -> fl(n*tau)*T) comparable with a reference
       that multiplies exact factors.  A constant related to two different classes is ambiguous:
@@ -50,7 +50,7 @@ class ConstPool:
     # statistically significant (chance hit for a random real ~ q^2*tol <= 1e-5); CasADi's
     # collocation_coeff carries errors up to ~1e-14 on small rationals such as -1 or 17/2
     SIMPLE_TIERS = ((10 ** 3, Fraction(1, 10 ** 12)), (10 ** 4, Fraction(1, 10 ** 13)), (10 ** 5, Fraction(4, 10 ** 15)))
-    RATIO_DEN = 1000
+    RATIO_DEN = 128
     RATIO_TOL = 1e-11
 
     def __init__(self):
@@ -111,7 +111,7 @@ class ConstPool:
                     continue
                 q = f / k
                 r = Fraction(q).limit_denominator(self.RATIO_DEN)
-                if r != 0 and abs(float(r) - q) <= self.RATIO_TOL * abs(q):
+                if r != 0 and abs(r.numerator) <= self.RATIO_DEN and abs(float(r) - q) <= self.RATIO_TOL * abs(q):
                     if found is None:
                         found = (kc, r * v)
                     elif found[0] != kc:
